@@ -29,6 +29,8 @@ var plainImports = []userImport{
 	{Alias: "", Path: "unicode/utf8", Local: "utf8", Exprs: []string{`utf8.RuneLen('}')`, `utf8.ValidString("*/")`}, Class: "plain"},
 	{Alias: "", Path: "path/filepath", Local: "filepath", Exprs: []string{`filepath.Base("a/b")`}, Class: "plain"},
 	{Alias: "", Path: "encoding/json", Local: "json", Exprs: []string{`json.Valid([]byte("{}"))`}, Class: "plain"},
+	// the package name is not the last element of the import path
+	{Alias: "", Path: "math/rand/v2", Local: "rand", Exprs: []string{`rand.IntN(3)`}, Class: "plain"},
 	{Alias: "str", Path: "strings", Local: "str", Exprs: []string{`str.ToLower("A{")`, `str.Fields("a b")`}, Class: "aliased"},
 	{Alias: "xurl", Path: "net/url", Local: "xurl", Exprs: []string{`xurl.QueryEscape("a b")`}, Class: "aliased"},
 	{Alias: "b64", Path: "encoding/base64", Local: "b64", Exprs: []string{`b64.StdEncoding.EncodeToString([]byte("x"))`}, Class: "aliased"},
@@ -154,7 +156,12 @@ type bodyCtx struct {
 func (g *gen) stmt(c *bodyCtx) string {
 	n := g.id()
 	term := c.Term && g.chance(50)
-	switch g.r.Intn(25) {
+	switch g.r.Intn(26) {
+	case 25:
+		// a partially implemented resolver: one branch still holds the generator's own
+		// "not implemented" idiom, the rest of the body is the user's
+		g.use("body_with_not_implemented_branch")
+		return fmt.Sprintf("if n%[1]d := len(\"x\"); n%[1]d > 7 {\n\tpanic(fmt.Errorf(\"not implemented: Later%[1]d - later%[1]d\"))\n}", n)
 	case 23:
 		// a local variable named like a package the resolver template reserves as an import, used
 		// with a selector: the regenerated file must not keep that import because of it
